@@ -66,7 +66,7 @@ def real_expand(b, e):
     asg = b.attached(e)
     try:
         _sm().expand(asg.rhs)
-        return X.read_psyir(asg.rhs), None
+        return X.read_psyir(asg.rhs, b.names), None
     except X.Unreadable as err:
         return None, "unreadable:" + str(err)
     except Exception as err:
@@ -85,17 +85,17 @@ def real_sympy(b, es):
             b.detach(a)
 
 
-def real_solve(b, e1, e2, xname="i"):
+def real_solve(b, e1, e2, x=0):
     import sympy
     try:
         s1, s2 = real_sympy(b, [e1, e2])
-        sols = _sm().solve_equal_for(s1, s2, sympy.Symbol(xname))
+        sols = _sm().solve_equal_for(s1, s2, sympy.Symbol(b.names[x]))
         return sols, None
     except Exception as err:
         return None, type(err).__name__
 
 
-def sym_eval(s, env, interp=X.INTERP[0]):
+def sym_eval(s, env, interp=X.INTERP[0], names=X.VARS):
     """value (Fraction) of a SymPy expression produced by the SymPyWriter at an integer valuation; arrays are
     interpreted like `liftEnv` (integer arguments -> table, otherwise 0).  Raises Undefined."""
     import sympy
@@ -105,34 +105,34 @@ def sym_eval(s, env, interp=X.INTERP[0]):
     if s.is_Rational:
         return Fraction(int(s.p), int(s.q))
     if s.is_Symbol:
-        if s.name in X.VARS:
-            return Fraction(env[X.VARS.index(s.name)])
+        if s.name in names:
+            return Fraction(env[list(names).index(s.name)])
         raise X.Undefined()
     if isinstance(s, sympy.Add):
-        return sum((sym_eval(a, env, interp) for a in s.args), Fraction(0))
+        return sum((sym_eval(a, env, interp, names) for a in s.args), Fraction(0))
     if isinstance(s, sympy.Mul):
         out = Fraction(1)
         for a in s.args:
-            out *= sym_eval(a, env, interp)
+            out *= sym_eval(a, env, interp, names)
         return out
     if isinstance(s, sympy.Pow):
-        base, ex = sym_eval(s.args[0], env, interp), sym_eval(s.args[1], env, interp)
+        base, ex = sym_eval(s.args[0], env, interp, names), sym_eval(s.args[1], env, interp, names)
         if ex.denominator != 1 or (base == 0 and ex < 0) or abs(ex) > 64:
             raise X.Undefined()
         return base ** int(ex)
     if isinstance(s, (sympy.Max, sympy.Min)):
-        vals = [sym_eval(a, env, interp) for a in s.args]
+        vals = [sym_eval(a, env, interp, names) for a in s.args]
         return max(vals) if isinstance(s, sympy.Max) else min(vals)
     if isinstance(s, sympy.Mod):
-        a, m = sym_eval(s.args[0], env, interp), sym_eval(s.args[1], env, interp)
+        a, m = sym_eval(s.args[0], env, interp, names), sym_eval(s.args[1], env, interp, names)
         if m == 0:
             raise X.Undefined()
         return a - m * ((a / m).__floor__())
     if isinstance(s, sympy.floor):
-        return Fraction(sym_eval(s.args[0], env, interp).__floor__())
+        return Fraction(sym_eval(s.args[0], env, interp, names).__floor__())
     if isinstance(s, AppliedUndef):
         name = type(s).__name__
-        args = [sym_eval(a, env, interp) for a in s.args]
+        args = [sym_eval(a, env, interp, names) for a in s.args]
         idx = args[0::3]
         if any(args[k] != args[k + 1] or args[k + 2] != 1 for k in range(0, len(args), 3)):
             raise X.Undefined()
@@ -168,7 +168,7 @@ def translation_ok(b, trees):
                     env[v] = z
                 try:
                     want = X.evalQ_py(e, env, interp)
-                    got = sym_eval(s, env, interp)
+                    got = sym_eval(s, env, interp, b.names)
                 except (X.Undefined, ZeroDivisionError, OverflowError):
                     continue
                 if want != got:
@@ -176,13 +176,13 @@ def translation_ok(b, trees):
     return True
 
 
-def poly_to_sympy(p):
+def poly_to_sympy(p, names=X.VARS):
     import sympy
     out = sympy.Integer(0)
     for t in p:
         term = sympy.Rational(t[0], t[1])
         for v in t[2:]:
-            term *= sympy.Symbol(X.VARS[v])
+            term *= sympy.Symbol(names[v])
         out += term
     return out
 
@@ -214,7 +214,7 @@ def check_expand(e, res):
     return None
 
 
-def check_solutions(e1, e2, sols, x=0):
+def check_solutions(e1, e2, sols, x=0, names=X.VARS):
     """every reported solution that is an integer at a grid valuation must satisfy the equation there"""
     if not isinstance(sols, (set, frozenset)):
         return None
@@ -227,7 +227,7 @@ def check_solutions(e1, e2, sols, x=0):
                 for v, z in zip(others, vals):
                     env[v] = z
                 try:
-                    sv = sym_eval(sol, env, interp)
+                    sv = sym_eval(sol, env, interp, names)
                 except X.Undefined:
                     continue
                 if sv.denominator != 1:
@@ -239,7 +239,7 @@ def check_solutions(e1, e2, sols, x=0):
                     continue
                 if v1 != v2:
                     envd = {X.VARS[v]: env[v] for v in others + [x]}
-                    return {"kind": "solve", "solution": str(sol),
+                    return {"kind": "solve", "solution": str(sol), "x": x,
                             "observed": f"reported solution {X.VARS[x]} = {sol} = {int(sv)}: sides are {v1} and {v2} at {envd}",
                             "expected": "every reported solution satisfies the equation",
                             "valuation": {"env": envd, "interp": k, "v1": v1, "v2": v2}}
@@ -436,14 +436,7 @@ def run_solves(ctx, b, eqs):
         case = {"solve_for": "i", "e1": X.fortran(e1), "e2": X.fortran(e2), "solutions": shown}
         agreed, compared = False, (m != "unknown" and err is None)
         if compared:
-            if m == "independent":
-                agreed = sols == "independent"
-            elif m == "empty":
-                agreed = isinstance(sols, set) and len(sols) == 0
-            else:
-                p = common.parse_sx(m)[1]
-                agreed = (isinstance(sols, set) and len(sols) == 1 and
-                          sympy.expand(list(sols)[0] - poly_to_sympy(p)) == 0)
+            agreed = solve_agrees(m, sols, b.names)
         ctx.count("solve:" + (m.split()[0].strip("(") if m else "?") + ("" if not err else ":raised"))
         chk.case(case, nontrivial=True, agreed=agreed)
         bad = check_solutions(e1, e2, sols) if err is None else None
@@ -453,6 +446,97 @@ def run_solves(ctx, b, eqs):
                 return
         if compared and not agreed:
             chk.correspondence_broken("solve_equal_for differs from C17.modelSolve", case, m, shown)
+
+
+def solve_agrees(m, sols, names):
+    """does the real answer equal the model's answer `m` (a driver line other than 'unknown')?"""
+    import sympy
+    if m == "independent":
+        return sols == "independent"
+    if m == "empty":
+        return isinstance(sols, set) and len(sols) == 0
+    p = common.parse_sx(m)[1]
+    return (isinstance(sols, set) and len(sols) == 1 and
+            sympy.expand(list(sols)[0] - poly_to_sympy(p, names)) == 0)
+
+
+def history_ops(e1, e2):
+    """the call history played on one equation in ONE process: solve for every variable, the comparison verdicts,
+    solve in the reverse order, expand, and the first query again"""
+    vs = sorted(set(X.variables(e1)) | set(X.variables(e2)))
+    ops = [["solve", x] for x in vs] + [["verdicts"]] + [["solve", x] for x in reversed(vs)] + [["expand"]]
+    return ops + [["solve", vs[0]]] if vs else ops
+
+
+def play(b, e1, e2, op):
+    """one query of a history on the real code -> (answer, failing-input-or-None)"""
+    if op[0] == "solve":
+        sols, err = real_solve(b, e1, e2, op[1])
+        bad = check_solutions(e1, e2, sols, op[1], b.names) if err is None else None
+        return (sols, err), bad
+    if op[0] == "verdicts":
+        eq, ne, err = real_verdicts(b, e1, e2)
+        return (eq, ne, err), check_verdict(e1, e2, eq, ne)
+    res, err = real_expand(b, e1)
+    return (res, err), (check_expand(e1, res) if res is not None else None)
+
+
+def run_histories(ctx, builders, eqs):
+    """Call histories: the model is a pure function of (e1, e2, unknown) (theorem C17_solve_history_independent), so
+    every answer of the real code inside a history must equal the model's answer for that query alone, and every
+    reported solution must satisfy the equation - whatever was asked before in the same process.  Histories alternate
+    between two symbol tables (plain names / a Python keyword as variable name) to interleave the writer's renaming."""
+    chk, brk = ctx.chk, int(ctx.brk)
+    lines, idx = [], {}
+    for k, (e1, e2) in enumerate(eqs):
+        for x in sorted(set(X.variables(e1)) | set(X.variables(e2))):
+            idx[(k, x)] = len(lines)
+            lines.append(f"(solve {brk} {x} {X.sexp(e1)} {X.sexp(e2)})")
+        idx[(k, "eq")] = len(lines)
+        lines.append(f"(eq {brk} {X.sexp(e1)} {X.sexp(e2)})")
+        idx[(k, "ex")] = len(lines)
+        lines.append(f"(expand {brk} {X.sexp(e1)})")
+    out = driver(PROP, lines)
+    for k, (e1, e2) in enumerate(eqs):
+        b = builders[k % len(builders)]
+        done = []
+        for op in history_ops(e1, e2):
+            if ctx.stop:
+                return
+            ans, bad = play(b, e1, e2, op)
+            compared = agreed = False
+            if op[0] == "solve":
+                m = out[idx[(k, op[1])]]
+                sols, err = ans
+                compared = m != "unknown" and err is None
+                agreed = compared and solve_agrees(m, sols, b.names)
+                shown = "raised:" + err if err else (sols if isinstance(sols, str) else sorted(str(t) for t in sols))
+                model_shown = m
+            elif op[0] == "verdicts":
+                m = [int(t) for t in out[idx[(k, "eq")]].split()]
+                compared = bool(m[2]) and ans[2] is None
+                agreed = compared and (m[0], m[1]) == (int(ans[0]), int(ans[1]))
+                shown, model_shown = {"equal": ans[0], "never_equal": ans[1], "raised": ans[2]}, m[:2]
+            else:
+                m = out[idx[(k, "ex")]]
+                res, err = ans
+                compared = m != "none" and res is not None
+                if compared:
+                    agreed = driver(PROP, [f"(expand 1 {X.sexp(res)})"])[0] == m
+                shown, model_shown = (X.fortran(res) if res is not None else "raised:" + str(err)), m
+            case = {"history": done + [op], "names": b.names, "e1": X.fortran(e1), "e2": X.fortran(e2), "answer": shown}
+            ctx.count("history:" + op[0])
+            chk.case(case, nontrivial=True, agreed=agreed)
+            if bad:
+                ctx.failing(pair_payload(e1, e2, dict(bad, kind="history", op=op, history=list(done), names=b.names,
+                                                      fault=bad["kind"])),
+                            [e1, e2], model_reproduces=(not compared) or agreed)
+                if ctx.stop:
+                    return
+            if compared and not agreed:
+                chk.correspondence_broken("answer inside a call history differs from the (stateless) model", case,
+                                          model_shown, shown)
+            done.append(op)
 
 
 def run_evals(ctx, b, exprs):
@@ -631,6 +715,13 @@ def run(chk):
         eqs += [X.gen_linear_eq(rng, ext=(rng.random() < 0.35)) for _ in range(80 * scale)]
         eqs = [(e1, e2) for e1, e2 in eqs if max(X.degree(e1, False), X.degree(e2, False), X.degree(e1, True), X.degree(e2, True)) <= 6]
         run_solves(ctx, b, eqs)
+    if not ctx.stop:
+        i, j, n = ("var", 0), ("var", 1), ("var", 2)
+        heqs = [(("add", ("mul", i, j), n), ("add", n, ("mul", ("lit", 2), j))),     # seeded/C17-3: i = 2, j = 0
+                (("add", i, ("mul", ("lit", 2), j)), n), (("mul", i, i), ("add", j, ("lit", 1)))]
+        heqs += [X.gen_multi_eq(rng) for _ in range(10 * scale)]
+        heqs = [(e1, e2) for e1, e2 in heqs if max(X.degree(e1, True), X.degree(e2, True)) <= 6]
+        run_histories(ctx, [b, X.Builder(names=["i", "lambda", "n"])], heqs)
     chk.cov["seconds_pairs_expands_solves"] = round(time.time() - t0, 1)
     if not ctx.stop:
         exprs = [X.gen_nested_pow_expr(rng) for _ in range(4 * scale)]
@@ -681,6 +772,14 @@ def replay(payload):
         sols, err = real_solve(b, e1, e2)
         print(f"solve {X.fortran(e1)} = {X.fortran(e2)} for i\nreal code: {sols if err is None else err}")
         bad = check_solutions(e1, e2, sols) if err is None else None
+    elif kind == "history":
+        bb = X.Builder(names=payload.get("names"))
+        e1, e2 = X.from_json(payload["e1_tree"]), X.from_json(payload["e2_tree"])
+        print(f"e1 = {X.fortran(e1)}\ne2 = {X.fortran(e2)}   (variable names {bb.names})")
+        for op in [list(o) for o in payload["history"]] + [list(payload["op"])]:
+            ans, bad = play(bb, e1, e2, op)
+            print("  ", op, "->", ans[0] if op[0] != "verdicts" else ans)
+        # `bad` is the evaluation of the last (failing) query after the recorded history
     elif kind == "range_never_equal":
         from psyclone.psyir.nodes import Range
         tr = [(X.from_json(a), X.from_json(c), "") for a, c in payload["triple"]]
